@@ -34,7 +34,7 @@ namespace kern {
 
 const char *call_names[SC_COUNT] = {"sem_open", "sem_close", "sem_unlink", "sem_wait", "sem_post", "shm_open", "shm_unlink", "ftruncate", "fstat",
                                     "mmap", "munmap", "close", "nanosleep", "socket", "bind", "listen", "accept", "connect", "send", "sendto", "recv",
-                                    "recvfrom", "poll", "shutdown", "getsockopt", "setsockopt", "getsockname", "getpeername", "fcntl", "open"};
+                                    "recvfrom", "poll", "shutdown", "getsockopt", "setsockopt", "getsockname", "getpeername", "fcntl", "open", "fopen", "opendir", "dlopen", "pthread_create", "pthread_key_create"};
 
 K *k = nullptr;
 
@@ -75,6 +75,8 @@ int sigpipe_deliveries() { return k->sigpipes; }
 bool sigpipe_ignored(int proc) { return proc_of(proc).sigpipe_ignored; }
 uint64_t msg_errors() { return k->msg_errors; }
 uint64_t msg_warnings() { return k->msg_warnings; }
+int passthrough_open() { return k->files_open + k->dirs_open + k->libs_open; }
+std::string passthrough_desc() { char b[96]; snprintf(b, sizeof b, "%d FILE, %d DIR, %d dlopen handle(s)", k->files_open, k->dirs_open, k->libs_open); return b; }
 int syscalls_in_bracket() { Task *t = cur(); return t ? (int)(t->syscalls - t->api_sys_base) : 0; }
 
 // called at entry of every simulated system call: scheduling point + bookkeeping. Returns invocation index.
@@ -155,6 +157,7 @@ FdEnt *fd_get(int fd) {
 void fd_release(FdEnt &e) {
   if (e.kind == FD_SHM && e.shm) e.shm->open_fds--;
   if (e.kind == FD_SOCK && e.sock) sock_release(e.sock);
+  if (e.kind == FD_FILE && e.realfd >= 0) close(e.realfd);
 }
 int fd_count(int proc) { return (int)proc_of(proc).fds.size(); }
 std::string fd_desc(int proc) {
@@ -571,6 +574,60 @@ int simk_close(int fd) {
   else { fd_release(it->second); P.fds.erase(it); k->closes++; ev("close", fd); }
   ipc_exit();
   return rc;
+}
+
+
+// ---------------------------------------------------------------- accounted pass-through: real calls, counted, failable (F11)
+#include <dirent.h>
+#include <dlfcn.h>
+FILE *simk_fopen(const char *path, const char *mode) {
+  int n = sc_enter(SC_FOPEN);
+  int err = cur() ? want_fail(SC_FOPEN, n) : 0;
+  if (err) { errno = err; return nullptr; }
+  FILE *f = fopen(path, mode);
+  if (f && k) k->files_open++;
+  return f;
+}
+int simk_fclose(FILE *f) {
+  if (k && f) k->files_open--;
+  return fclose(f);
+}
+DIR *simk_opendir(const char *path) {
+  int n = sc_enter(SC_OPENDIR);
+  int err = cur() ? want_fail(SC_OPENDIR, n) : 0;
+  if (err) { errno = err; return nullptr; }
+  DIR *d = opendir(path);
+  if (d && k) k->dirs_open++;
+  return d;
+}
+int simk_closedir(DIR *d) {
+  if (k && d) k->dirs_open--;
+  return closedir(d);
+}
+int simk_open(const char *path, int flags, ...) {
+  int n = sc_enter(SC_OPEN);
+  mode_t mode = 0;
+  if (flags & O_CREAT) { va_list ap; va_start(ap, flags); mode = va_arg(ap, mode_t); va_end(ap); }
+  Task *t = cur();
+  if (!t) return open(path, flags, mode);
+  int err = want_fail(SC_OPEN, n);
+  if (err) { errno = err; return -1; }
+  int rfd = open(path, flags, mode);
+  if (rfd < 0) return -1;
+  FdEnt e; e.kind = FD_FILE; e.realfd = rfd; e.cloexec = flags & O_CLOEXEC;
+  return fd_alloc(proc_of(t->proc), e);
+}
+void *simk_dlopen(const char *path, int flags) {
+  int n = sc_enter(SC_DLOPEN);
+  int err = cur() ? want_fail(SC_DLOPEN, n) : 0;
+  if (err) return nullptr;
+  void *h = dlopen(path, flags);
+  if (h && k) k->libs_open++;
+  return h;
+}
+int simk_dlclose(void *h) {
+  if (k && h) k->libs_open--;
+  return dlclose(h);
 }
 
 }  // extern "C"
